@@ -9,6 +9,7 @@ import (
 	"github.com/talostrading/sonic/codec/websocket"
 	"github.com/talostrading/sonic/sonicerrors"
 
+	shimnet "sonicverif/shim/net"
 	"sonicverif/sim"
 )
 
@@ -20,6 +21,7 @@ func init() {
 }
 
 var (
+	c18pDataEOF    = sim.RegStat("probe:c18-transport-may-report-eof-together-with-the-last-bytes")
 	c18pAccepted   = sim.RegStat("probe:c18-handshake-accepted")
 	c18pRejected   = sim.RegStat("probe:c18-handshake-rejected")
 	c18pSplit      = sim.RegStat("probe:c18-response-arrived-in-several-segments")
@@ -194,6 +196,12 @@ func runC18(c *Ctx, variant int) {
 	defer d.close()
 	if variant < 0 {
 		w.EnableFaults(sim.FSegment, sim.FDelay, sim.FShortRead)
+		if w.Chance(1, 3) {
+			// the transport may hand over the last bytes together with the end of the stream (tls.Conn does):
+			// a server that answers and closes at once must still be understood
+			w.Stat(c18pDataEOF)
+			shimnet.EOFWithData = true
+		}
 	}
 	nH := w.Range(1, c.Deep(3))
 	if variant >= 0 {
@@ -232,6 +240,9 @@ func runC18(c *Ctx, variant int) {
 			if w.Chance(1, 6) {
 				resp.CloseAfter = w.Range(0, total)
 				resp.Abort = w.Chance(1, 3)
+			} else if w.Chance(1, 8) {
+				// the server answers (and sends what it has to send) and closes at once
+				resp.CloseAfter = total
 			}
 		}
 		if len(resp.Cuts) > 0 {
